@@ -277,6 +277,35 @@ def level_scaling(facts, res, geo):
         n += 1
         res.instance(R, "%s::%s -> %s" % (K, op, callee), facts.loc(c), "code argument `%s`, cell `%s`" % (facts.ntext(args[code_slot])[:40], facts.ntext(cells[0])[:40] if cells else "?"))
         if item is None or item.get("k") != "DeclRefExpr":
+            # the batched form: the per-item codes and expansions are gathered into local arrays in the item loop (slot i <- item i,
+            # unconditionally) and handed over in one call after it
+            filled = {}
+            for y in walk(body):
+                if y.get("k") == "BinaryOperator" and y.get("op") == "=":
+                    l_ = strip(kids(y)[0])
+                    if l_.get("k") == "ArraySubscriptExpr" and strip(kids(l_)[0]).get("did") in decls and re.search(r"\[", decls[strip(kids(l_)[0])["did"]].get("t", "")):
+                        filled.setdefault(strip(kids(l_)[0])["did"], []).append((y, strip(kids(l_)[1]), kids(y)[1]))
+            arr_args = [strip(a) for a in args if strip(a).get("k") == "DeclRefExpr" and strip(a).get("did") in filled]
+            codes_ok = cells_ok = None
+            for a in arr_args:
+                for y, slot, rhs in filled[a["did"]]:
+                    r0 = resolve(rhs)
+                    under = [z for z in tbf.ancestors(y) if z.get("k") == "IfStmt"]
+                    lps = [z for z in tbf.ancestors(y) if z.get("k") in ("ForStmt", "WhileStmt")]
+                    early = [z for z in walk(lps[0]) if z.get("k") in ("ContinueStmt", "BreakStmt", "ReturnStmt")] if lps else [1]
+                    if r0.get("k") == "ArraySubscriptExpr" and strip(kids(r0)[0]).get("did") == pos["did"]:
+                        codes_ok = slot.get("did") is not None and resolve(kids(r0)[1]).get("did") == slot.get("did") and not under and not early
+                    elif any(z.get("k") in ("ArraySubscriptExpr", "CXXOperatorCallExpr") and len(kids(z)) >= 2 and strip(kids(z)[-2]).get("did") == cont["did"] for z in walk(rhs)):
+                        zz = [z for z in walk(rhs) if z.get("k") in ("ArraySubscriptExpr", "CXXOperatorCallExpr") and len(kids(z)) >= 2 and strip(kids(z)[-2]).get("did") == cont["did"]]
+                        cells_ok = slot.get("did") is not None and resolve(kids(zz[0])[-1]).get("did") == slot.get("did") and not under and not early
+            if codes_ok and cells_ok and not [a_ for a_ in tbf.ancestors(c) if a_.get("k") in ("ForStmt", "WhileStmt", "DoStmt")]:
+                res.instance(R, "%s::%s -> %s (batched)" % (K, op, callee), facts.loc(c), "slot i of the code array <- code of item i, slot i of the expansion array <- expansion of item i, one call after the item loop")
+                if op == "M2L" and not any(resolve(a_).get("did") == lvl["did"] for a_ in args):
+                    res.violation(R, tbf.rel(facts.path_of(mm)), mm["qname"], "level:%s" % op, c["l"][1], "%s is called without the operator's level argument" % callee)
+                continue
+            if codes_ok is False or cells_ok is False:
+                res.violation(R, tbf.rel(facts.path_of(mm)), mm["qname"], "code-item:%s" % op, c["l"][1], "the arrays handed to %s are not filled slot i <- item i for every item (code array: %s, expansion array: %s)" % (callee, codes_ok, cells_ok))
+                continue
             res.violation(R, tbf.rel(facts.path_of(mm)), mm["qname"], "code:%s" % op, c["l"][1], "%s is called with `%s`, which is not the position code of an item handed to %s" % (callee, facts.ntext(args[code_slot])[:60], op))
             continue
         if len(cells) != 1 or resolve(kids(cells[0])[-1]).get("did") != item.get("did"):
@@ -684,6 +713,8 @@ def run(res, tier):
     cobj, geo = geometry(facts)
     level_scaling(facts, res, geo)
     leaf_centre(facts, res, cobj, geo)
+    res.rule("C05.7 transfer terms: every term an M2L handler overload adds to the transformed local expansion depends (through its locals) on the parameter it derives from the level of the call - the scale in the homogeneous handler, the level selecting the table in the non-homogeneous one - and on the transfer code")
+    res.floor("C05.7", transfer_terms(facts, res), 2, "accumulations in the M2L handlers")
     res.rule("C05.6 level-uniform operators: the level argument of M2M / M2L / L2L reaches width and scale arithmetic only (no branch, loop bound or selection depends on it); the kernel names no executor boundary level")
     level_uniform(facts, res, K, "C05.6.level-uniform")
 
@@ -763,4 +794,97 @@ def per_item_buffers(facts, res, kcls, R, ops=("M2M", "M2L", "L2L", "P2M", "L2P"
                                       "the scratch array '%s' outlives the iterations of the item loop and is not fully redefined at the start of each one (%s): what item i sees there depends on the items before it, "
                                       "and the operator is handed any subset of a cell's items (only the children that exist, only those of one group) - the result is right only for the item sequences where the carried values happen to fit"
                                       % (v.get("name"), ("its redefinition is under `%s`" % facts.ntext([y for y in kids(cond[0]) if y.get("k") != "DeclStmt"][0])[:60]) if cond else "first touched by `%s`" % facts.ntext(top if top is not None else first)[:50]))
+    return n
+
+
+def transfer_terms(facts, res, R="C05.7.transfer-terms"):
+    """Every term the transfer step adds to a target's transformed local expansion carries the level information and the transfer code of
+    the call.  Found from the code: in FUnifKernel::M2L the call into the M2L handler; the argument positions whose values derive from the
+    operator's level argument (the level itself, the scale computed from the level's cell width) and from the position codes; in each handler
+    overload of that arity, the NAMED parameters at those positions (an unnamed one is unused: the homogeneous handler ignores the level and
+    uses the scale, the non-homogeneous one the reverse).  Then, by flow-insensitive dependence through the overload's locals: every
+    accumulation into an output pointer depends on at least one level-derived parameter and on a code-derived one.  A loop that adds
+    `C[j] * Y[j]` without the scale is exact only at the level whose scale is 1."""
+    ms = [m for m in facts.methods_of(K) if m["name"] == "M2L" and tbf.body(m) is not None and not m.get("inst")]
+    if len(ms) != 1:
+        raise AnalysisBroken("%s::M2L not found" % K)
+    m = ms[0]
+    rl = coherence.ROLES["M2L"]
+    lvl = [p for p, r in zip(m["params"], rl) if r[1] == "level"][0]
+    pos = [p for p, r in zip(m["params"], rl) if r[1] == "positions"][0]
+
+    def deps_in(fn, roots):
+        """did -> set of root dids it depends on (flow-insensitive closure over locals)"""
+        dep = {d: {d} for d in roots}
+        changed = True
+
+        def of(e):
+            out = set()
+            for z in walk(e):
+                if z.get("k") == "DeclRefExpr" and z.get("did") in dep:
+                    out |= dep[z["did"]]
+            return out
+        while changed:
+            changed = False
+            for x in walk(tbf.body(fn)):
+                tgt = src = None
+                if x.get("k") == "VarDecl" and kids(x):
+                    tgt, src = x["did"], kids(x)[0]
+                elif x.get("k") in ("BinaryOperator", "CompoundAssignOperator") and x.get("op", "").endswith("=") and x.get("op") not in ("==", "!=", "<=", ">="):
+                    l = strip(kids(x)[0])
+                    while l.get("k") in ("ArraySubscriptExpr",) and kids(l):
+                        l = strip(kids(l)[0])
+                    if l.get("k") == "DeclRefExpr":
+                        tgt, src = l.get("did"), kids(x)[1]
+                if tgt is not None and tgt not in roots:
+                    new = of(src)
+                    if not new <= dep.get(tgt, set()):
+                        dep[tgt] = dep.get(tgt, set()) | new
+                        changed = True
+        return dep, of
+    dep_k, of_k = deps_in(m, {lvl["did"], pos["did"]})
+    calls = [x for x in walk(tbf.body(m)) if x.get("k") in ("CallExpr", "CXXMemberCallExpr") and tbf.callee_name(x) == "applyFC"]
+    if len(calls) != 1:
+        raise AnalysisBroken("%s::M2L: %d calls of applyFC" % (K, len(calls)))
+    args = tbf.call_args(calls[0])
+    level_pos = [i for i, a in enumerate(args) if lvl["did"] in of_k(a)]
+    code_pos = [i for i, a in enumerate(args) if pos["did"] in of_k(a)]
+    if not level_pos or not code_pos:
+        raise AnalysisBroken("%s::M2L: the handler call has no level-derived / code-derived argument (%s / %s)" % (K, level_pos, code_pos))
+    overloads = [g for g in facts.functions if g["name"] == "applyFC" and not g.get("inst") and tbf.body(g) is not None and len(g["params"]) == len(args)]
+    if len(overloads) < 2:
+        raise AnalysisBroken("applyFC: %d overloads of arity %d (homogeneous and non-homogeneous handler confirmed by reading)" % (len(overloads), len(args)))
+    n = 0
+    for g in overloads:
+        Lp = [g["params"][i] for i in level_pos if g["params"][i].get("name")]
+        Cp = [g["params"][i] for i in code_pos if g["params"][i].get("name")]
+        outs = [p_ for p_ in g["params"] if "*" in p_["t"] and not p_["t"].lstrip().startswith("const") and p_.get("name")]
+        f = tbf.rel(facts.path_of(g))
+        if not Lp:
+            res.violation(R, f, g["qname"], "no-level", g["l"][1], "this overload names none of its level-derived parameters (positions %s): its result cannot depend on the level" % level_pos)
+            continue
+        if not outs:
+            raise AnalysisBroken("%s: no output pointer parameter" % g["qname"])
+        roots = {p_["did"] for p_ in g["params"]}
+        dep, of = deps_in(g, roots)
+        acc = []
+        for x in walk(tbf.body(g)):
+            if x.get("k") in ("BinaryOperator", "CompoundAssignOperator") and x.get("op", "").endswith("=") and x.get("op") not in ("==", "!=", "<=", ">="):
+                l = strip(kids(x)[0])
+                while l.get("k") in ("ArraySubscriptExpr",) and kids(l):
+                    l = strip(kids(l)[0])
+                if l.get("k") == "DeclRefExpr" and l.get("did") in [o["did"] for o in outs]:
+                    acc.append(x)
+        if not acc:
+            raise AnalysisBroken("%s: no accumulation into %s found" % (g["qname"], [o["name"] for o in outs]))
+        for x in acc:
+            n += 1
+            d = of(kids(x)[1])
+            res.instance(R, "%s@%d" % (g["qname"], x["l"][1]), facts.loc(x), "`%s` depends on %s" % (facts.ntext(x)[:60], sorted(p_["name"] for p_ in g["params"] if p_["did"] in d and p_.get("name"))))
+            if not any(p_["did"] in d for p_ in Lp):
+                res.violation(R, f, g["qname"], "unscaled@%d" % x["l"][1], x["l"][1],
+                              "the term `%s` added to the transformed local expansion does not depend on %s (what this handler derives from the level of the call): it is the contribution of the reference level, right only where the level's factor is 1"
+                              % (facts.ntext(x)[:70], " / ".join(p_["name"] for p_ in Lp)))
+            elif Cp and not any(p_["did"] in d for p_ in Cp):
+                res.violation(R, f, g["qname"], "uncoded@%d" % x["l"][1], x["l"][1], "the term `%s` does not depend on the transfer code (%s)" % (facts.ntext(x)[:70], " / ".join(p_["name"] for p_ in Cp)))
     return n
